@@ -65,6 +65,11 @@ def Kind.canSpreadInto : Kind → Option (List Kind)
   | .edge => some [.string, .string, .number]
   | _ => none
 
+/-- numeric kinds other than Boolean form one class (the static rules never separate them) -/
+def kindClass : Kind → Kind
+  | .integer | .pint | .number => .number
+  | k => k
+
 /-! ### errors of the transform phase (variant level) -/
 
 inductive TErr where
